@@ -4,7 +4,7 @@
    are among the auth events). *)
 From Coq Require Import Permutation Lia.
 From Verif Require Import Lib.Bytes StateRes.Event StateRes.Kahn StateRes.V2 StateRes.V2Spec
-     StateRes.SubsetProofs StateRes.ChainProofs StateRes.ChainCompleteProofs.
+     StateRes.SubsetProofs StateRes.ChainProofs StateRes.ChainCompleteProofs StateRes.AuthDiffProofs.
 Local Open Scope nat_scope.
 
 Lemma reach_refl_step authmap a b c : reach_refl authmap a b -> auth_step authmap b c -> reach_refl authmap a c.
@@ -20,137 +20,27 @@ Proof.
   - intro H. destruct (IH H) as [v [Hv Ev]]. exists v; auto.
 Qed.
 
-Section Subgraph.
-  Variable authmap conflicted : list event.
-  Variable o : event.
-  Hypothesis o_conflicted : has_event (e_id o) conflicted = true.
 
-  (* x lies on an auth path from o to a conflicted event and is the auth map's event of its ID *)
-  Definition on_path (x : event) : Prop :=
-    find_event (e_id x) authmap = Some x /\
-    exists c, has_event (e_id c) conflicted = true /\ reach_refl authmap o x /\ reach_refl authmap x c.
-
-  Definition path_inv (visiting : list bytes) (curr : event) : Prop :=
-    (forall v y, In v visiting -> find_event v authmap = Some y -> reach_refl authmap o y /\ reach_refl authmap y curr) /\
-    reach_refl authmap o curr /\
-    (forall y, find_event (e_id curr) authmap = Some y -> y = curr).
-
-  Lemma union_events_P (P : event -> Prop) a b :
-    (forall x, In x a -> P x) -> (forall x, In x b -> P x) -> forall x, In x (union_events a b) -> P x.
-  Proof.
-    intros Pa Pb. unfold union_events.
-    apply (fold_left_inv (fun s e => add_event e s) (fun s => forall x, In x s -> P x)); [exact Pa|].
-    intros s e Ps He x. unfold add_event. destruct (has_event (e_id e) s); [apply Ps|].
-    intro H. apply in_app_or in H as [H|[<-|[]]]; auto.
-  Qed.
-
-  Lemma subgraph_walk_sound depth : forall curr visiting,
-    path_inv visiting curr ->
-    forall x, In x (subgraph_walk depth authmap conflicted curr visiting) -> on_path x.
-  Proof.
-    induction depth as [|d IH]; intros curr visiting [Hv [Ho Hc]].
-    - assert (Hhere : forall x, In x (if has_event (e_id curr) conflicted
-                                       then lookup_ids authmap (visiting ++ [e_id curr]) else []) -> on_path x).
-      { destruct (has_event (e_id curr) conflicted) eqn:Ec; [|intros ? []].
-        intros x Hx. apply lookup_ids_find in Hx as [v [Hin Ev]].
-        split; [rewrite (find_event_id _ _ _ Ev); exact Ev|]. exists curr. split; [exact Ec|].
-        apply in_app_or in Hin as [Hin|[<-|[]]].
-        - apply (Hv v x Hin Ev).
-        - rewrite (Hc x Ev). split; [exact Ho|left; reflexivity]. }
-      exact Hhere.
-    - simpl.
-      assert (Hhere : forall x, In x (if has_event (e_id curr) conflicted
-                                       then lookup_ids authmap (visiting ++ [e_id curr]) else []) -> on_path x).
-      { destruct (has_event (e_id curr) conflicted) eqn:Ec; [|intros ? []].
-        intros x Hx. apply lookup_ids_find in Hx as [v [Hin Ev]].
-        split; [rewrite (find_event_id _ _ _ Ev); exact Ev|]. exists curr. split; [exact Ec|].
-        apply in_app_or in Hin as [Hin|[<-|[]]].
-        - apply (Hv v x Hin Ev).
-        - rewrite (Hc x Ev). split; [exact Ho|left; reflexivity]. }
-      apply (fold_left_inv _ (fun acc => forall x, In x acc -> on_path x)).
-      + apply union_events_P; [intros ? []|exact Hhere].
-      + intros acc k Hacc Hk. destruct (find_event k authmap) as [a|] eqn:Ea; [|exact Hacc].
-        apply union_events_P; [exact Hacc|]. apply IH.
-        assert (St : auth_step authmap curr a) by (exists k; auto).
-        split; [|split].
-        * intros v y Hin Ev. apply in_app_or in Hin as [Hin|[<-|[]]].
-          -- destruct (Hv v y Hin Ev) as [R1 R2]. split; [exact R1|eapply reach_refl_step; eassumption].
-          -- rewrite (Hc y Ev). split; [exact Ho|right; apply ar_step; exact St].
-        * eapply reach_refl_step; eassumption.
-        * intros y Ey. rewrite (find_event_id _ _ _ Ea) in Ey. congruence.
-  Qed.
-End Subgraph.
-
-(* the conflicted subgraph of one state set: only events of the specification's subgraph *)
-Theorem conflicted_subgraph_sound authmap conflicted sets s x :
-  In s sets ->
-  (forall o y, In o s -> find_event (e_id o) authmap = Some y -> y = o) ->
-  In x (conflicted_subgraph authmap conflicted s) ->
-  spec_conflicted_subgraph authmap conflicted sets x.
+Lemma union_events_P (P : event -> Prop) a b :
+  (forall x, In x a -> P x) -> (forall x, In x b -> P x) -> forall x, In x (union_events a b) -> P x.
 Proof.
-  intros Hs Hcons. unfold conflicted_subgraph.
-  apply (fold_left_inv _ (fun acc => In x acc -> spec_conflicted_subgraph authmap conflicted sets x)); [intros []|].
-  intros acc p Hacc Hp. destruct (has_event (e_id p) conflicted) eqn:Ec; [|exact Hacc].
-  intro H. revert x H Hacc.
-  assert (G : forall x, In x (union_events acc (subgraph_walk (S (length authmap)) authmap conflicted p [])) ->
-                        In x acc \/ on_path authmap conflicted p x).
-  { apply union_events_P; [auto|]. intros x Hx. right.
-    eapply subgraph_walk_sound; [|exact Hx]. split; [intros ? ? []|]. split; [left; reflexivity|]. intros y Ey. eapply Hcons; eauto. }
-  intros x H Hacc. destruct (G x H) as [H1|[F [c [Hc [R1 R2]]]]]; [auto|].
-  split; [exact F|]. exists s, p, c. repeat split; assumption.
+  intros Pa Pb. unfold union_events.
+  apply (fold_left_inv (fun s e => add_event e s) (fun s => forall x, In x s -> P x)); [exact Pa|].
+  intros s e Ps He x. unfold add_event. destruct (has_event (e_id e) s); [apply Ps|].
+  intro H. apply in_app_or in H as [H|[<-|[]]]; auto.
 Qed.
 
-(* ====================================================================================
-   Completeness: every event of the specification's subgraph is found, for an acyclic auth
-   relation (then a path visits at most |authmap| auth events, which is the walk's depth).
-   ==================================================================================== *)
-Section Complete.
-  Variable authmap conflicted : list event.
-  Variable rank : bytes -> nat.
-  Hypothesis acyclic_steps : forall a b, auth_step authmap a b -> rank (e_id b) < rank (e_id a).
-  Hypothesis authmap_ids : NoDup (ids_of authmap).
+Section Self.
+  Variable authmap : list event.
 
   Definition selfmap (y : event) : Prop := find_event (e_id y) authmap = Some y.
-
-  (* a -> p1 -> ... -> pn *)
-  Fixpoint chain (a : event) (p : list event) : Prop :=
-    match p with
-    | [] => True
-    | b :: r => auth_step authmap a b /\ chain b r
-    end.
 
   Lemma step_selfmap a b : auth_step authmap a b -> selfmap b.
   Proof. intros [k [_ E]]. unfold selfmap. rewrite (find_event_id _ _ _ E). exact E. Qed.
 
-  Lemma reach_chain a b : auth_reach authmap a b -> exists p, chain a (p ++ [b]).
-  Proof.
-    induction 1 as [a b S|a b c S R [p IH]].
-    - exists []. simpl. auto.
-    - exists (b :: p). simpl. auto.
-  Qed.
+  Lemma reach_selfmap a b : auth_reach authmap a b -> selfmap b.
+  Proof. induction 1 as [a b S|a b c S R IH]; [eapply step_selfmap; exact S|exact IH]. Qed.
 
-  Lemma chain_app a p : forall q b, chain a (p ++ [b]) -> chain b q -> chain a (p ++ b :: q).
-  Proof.
-    revert a. induction p as [|x r IH]; intros a q b; simpl.
-    - intros [S _] C. auto.
-    - intros [S C1] C2. split; [exact S|]. apply IH; assumption.
-  Qed.
-
-  Lemma chain_ranks p : forall a, chain a p -> (forall y, In y p -> rank (e_id y) < rank (e_id a)) /\ NoDup p /\ forall y, In y p -> In y authmap.
-  Proof.
-    induction p as [|b r IH]; intros a C; simpl in *; [repeat split; [tauto|constructor|tauto]|].
-    destruct C as [S C]. destruct (IH b C) as [R [ND IN]]. pose proof (acyclic_steps a b S) as Rb. repeat split.
-    - intros y [<-|Hy]; [exact Rb|]. specialize (R y Hy). lia.
-    - constructor; [|exact ND]. intro Hin. specialize (R b Hin). lia.
-    - intros y [<-|Hy]; [|auto]. destruct S as [k [_ E]]. eapply find_event_in. exact E.
-  Qed.
-
-  Lemma chain_length a p : chain a p -> length p <= length authmap.
-  Proof.
-    intro C. destruct (chain_ranks p a C) as [_ [ND IN]]. apply NoDup_incl_length; [exact ND|exact IN].
-  Qed.
-
-  (* ---------- membership in unions of consistent lists ---------- *)
   Lemma selfmap_in x s : selfmap x -> (forall y, In y s -> selfmap y) -> has_event (e_id x) s = true -> In x s.
   Proof.
     intros Fx Fs H. unfold has_event in H. destruct (find_event (e_id x) s) as [y|] eqn:E; [|discriminate].
@@ -185,64 +75,6 @@ Section Complete.
   Lemma lookup_selfmap ids y : In y (lookup_ids authmap ids) -> selfmap y.
   Proof. intro H. apply lookup_ids_find in H as [v [_ E]]. unfold selfmap. rewrite (find_event_id _ _ _ E). exact E. Qed.
 
-  Lemma subgraph_walk_selfmap depth : forall curr visiting y,
-    In y (subgraph_walk depth authmap conflicted curr visiting) -> selfmap y.
-  Proof.
-    induction depth as [|d IH]; intros curr visiting y; simpl.
-    - destruct (has_event _ _); [apply lookup_selfmap|intros []].
-    - revert y. apply (fold_left_inv _ (fun acc => forall y, In y acc -> selfmap y)).
-      + apply (union_events_P selfmap); [intros ? []|]. destruct (has_event _ _); [intro; apply lookup_selfmap|intros ? []].
-      + intros acc k Hacc _. destruct (find_event k authmap); [|exact Hacc].
-        apply (union_events_P selfmap); [exact Hacc|]. intro y. apply IH.
-  Qed.
-
-  Lemma fold_walk_keeps d curr visiting ks : forall acc x,
-    In x acc ->
-    In x (fold_left (fun acc k => match find_event k authmap with
-                                  | Some a => union_events acc (subgraph_walk d authmap conflicted a (visiting ++ [e_id curr]))
-                                  | None => acc
-                                  end) ks acc).
-  Proof.
-    induction ks as [|k r IH]; intros acc x H; simpl; [exact H|]. apply IH.
-    destruct (find_event k authmap); [apply union_keeps|]; exact H.
-  Qed.
-
-  Lemma fold_walk_finds d curr visiting ks : forall acc k a x,
-    (forall y, In y acc -> selfmap y) -> In k ks -> find_event k authmap = Some a ->
-    In x (subgraph_walk d authmap conflicted a (visiting ++ [e_id curr])) ->
-    In x (fold_left (fun acc k => match find_event k authmap with
-                                  | Some a => union_events acc (subgraph_walk d authmap conflicted a (visiting ++ [e_id curr]))
-                                  | None => acc
-                                  end) ks acc).
-  Proof.
-    induction ks as [|k0 r IH]; intros acc k a x Fa Hk Ea Hx; simpl; [destruct Hk|].
-    destruct Hk as [->|Hk].
-    - rewrite Ea. apply fold_walk_keeps. apply union_adds; [exact Fa|intro y; apply subgraph_walk_selfmap|exact Hx].
-    - apply (IH _ k a x); auto. destruct (find_event k0 authmap); [|exact Fa].
-      apply (union_events_P selfmap); [exact Fa|intro y; apply subgraph_walk_selfmap].
-  Qed.
-
-  Fixpoint last_of (a : event) (p : list event) : event :=
-    match p with [] => a | b :: r => last_of b r end.
-
-  Lemma walk_complete p : forall depth curr visiting,
-    chain curr p -> length p <= depth -> has_event (e_id (last_of curr p)) conflicted = true ->
-    forall x, In x (lookup_ids authmap (visiting ++ ids_of (curr :: p))) ->
-    In x (subgraph_walk depth authmap conflicted curr visiting).
-  Proof.
-    induction p as [|b r IH]; intros depth curr visiting C L Hc x Hx.
-    - simpl in Hc, Hx. destruct depth as [|d]; simpl; rewrite Hc; [exact Hx|].
-      apply fold_walk_keeps. apply union_adds; [intros ? []|intro y; apply lookup_selfmap|exact Hx].
-    - destruct depth as [|d]; [simpl in L; lia|]. simpl in C. destruct C as [[k [Hk Ek]] C].
-      simpl subgraph_walk.
-      apply (fold_walk_finds d curr visiting (e_auth curr) _ k b x).
-      + apply (union_events_P selfmap); [intros ? []|]. destruct (has_event (e_id curr) conflicted); [intros y Hy; eapply lookup_selfmap; exact Hy|intros ? []].
-      + exact Hk.
-      + exact Ek.
-      + apply IH; [exact C|simpl in L; lia|exact Hc|].
-        simpl in Hx. rewrite <- app_assoc. exact Hx.
-  Qed.
-
   Lemma lookup_ids_has ids y : selfmap y -> In (e_id y) ids -> In y (lookup_ids authmap ids).
   Proof.
     intros F. induction ids as [|k r IH]; simpl; [tauto|]. intros [->|H].
@@ -250,100 +82,125 @@ Section Complete.
     - destruct (find_event k authmap); [right|]; apply IH; exact H.
   Qed.
 
-  Lemma last_of_app a p b : last_of a (p ++ [b]) = b.
-  Proof. revert a. induction p as [|x r IH]; intro a; simpl; [reflexivity|apply IH]. Qed.
+  (* ---------- one state set ---------- *)
+  Variable conflicted : list event.
 
-  Lemma last_of_app2 a p b q : last_of a (p ++ b :: q) = last_of b q.
-  Proof. revert a. induction p as [|x r IH]; intro a; simpl; [reflexivity|apply IH]. Qed.
-
-  (* the walk from a conflicted origin finds every event of the specification's subgraph *)
-  Lemma origin_complete o x c :
-    selfmap x -> has_event (e_id c) conflicted = true ->
-    reach_refl authmap o x -> reach_refl authmap x c ->
-    In x (subgraph_walk (S (length authmap)) authmap conflicted o []).
+  Lemma reaches_conflicted_iff z :
+    reaches_conflicted authmap conflicted z = true <->
+    exists c, has_event (e_id c) conflicted = true /\ reach_refl authmap z c.
   Proof.
-    intros Fx Hc R1 R2.
-    (* a chain o -> ... -> c through x *)
-    assert (H : exists p, chain o p /\ last_of o p = c /\ In x (o :: p)).
-    { destruct R1 as [->|R1]; destruct R2 as [->|R2].
-      - exists []. simpl. auto.
-      - destruct (reach_chain _ _ R2) as [p C]. exists (p ++ [c]). rewrite last_of_app. simpl. auto.
-      - destruct (reach_chain _ _ R1) as [p C]. exists (p ++ [c]). rewrite last_of_app. split; [exact C|]. split; [reflexivity|].
-        right. apply in_or_app. right. left. reflexivity.
-      - destruct (reach_chain _ _ R1) as [p C1]. destruct (reach_chain _ _ R2) as [q C2].
-        exists (p ++ x :: q ++ [c]). split; [apply chain_app; assumption|]. split.
-        + rewrite last_of_app2. apply last_of_app.
-        + right. apply in_or_app. right. left. reflexivity. }
-    destruct H as [p [C [L Hin]]].
-    apply (walk_complete p (S (length authmap)) o []); [exact C|pose proof (chain_length o p C); lia|rewrite L; exact Hc|].
-    change ([] ++ ids_of (o :: p)) with (ids_of (o :: p)). apply lookup_ids_has; [exact Fx|]. unfold ids_of. apply in_map. exact Hin.
+    unfold reaches_conflicted. rewrite orb_true_iff, existsb_exists. split.
+    - intros [H|[y [Hy Hc]]]; [exists z; split; [exact H|left; reflexivity]|].
+      exists y. split; [exact Hc|]. right. apply (full_auth_chain_spec authmap [z] y) in Hy.
+      destruct Hy as [e [[<-|[]] R]]. exact R.
+    - intros [c [Hc [<-|R]]]; [left; exact Hc|]. right. exists c. split; [|exact Hc].
+      apply (full_auth_chain_spec authmap [z] c). exists z. split; [left; reflexivity|exact R].
   Qed.
 
-  (* one state set *)
-  Lemma conflicted_subgraph_complete_set s : forall o x c,
-    In o s -> has_event (e_id o) conflicted = true -> selfmap x -> has_event (e_id c) conflicted = true ->
-    reach_refl authmap o x -> reach_refl authmap x c ->
-    In x (conflicted_subgraph authmap conflicted s).
+  Definition origin_part (p : event) : list event :=
+    lookup_ids authmap (ids_of (filter (reaches_conflicted authmap conflicted) (p :: full_auth_chain authmap [p]))).
+
+  Lemma origin_part_spec p x :
+    (forall y, find_event (e_id p) authmap = Some y -> y = p) ->
+    (In x (origin_part p) <->
+     selfmap x /\ exists c, has_event (e_id c) conflicted = true /\ reach_refl authmap p x /\ reach_refl authmap x c).
   Proof.
-    unfold conflicted_subgraph. intros o x c Ho Hoc Fx Hc R1 R2.
-    assert (G : forall l acc, (forall y, In y acc -> selfmap y) -> (In x acc \/ In o l) ->
-              In x (fold_left (fun acc p => if has_event (e_id p) conflicted
-                                            then union_events acc (subgraph_walk (S (length authmap)) authmap conflicted p [])
-                                            else acc) l acc)).
-    { induction l as [|p r IH]; intros acc Fa H; cbn [fold_left]; [destruct H as [H|[]]; exact H|].
-      assert (Fa' : forall y, In y (if has_event (e_id p) conflicted
-                                    then union_events acc (subgraph_walk (S (length authmap)) authmap conflicted p [])
-                                    else acc) -> selfmap y).
-      { destruct (has_event (e_id p) conflicted); [|exact Fa]. apply (union_events_P selfmap); [exact Fa|intro y; apply subgraph_walk_selfmap]. }
-      apply IH; [exact Fa'|]. destruct H as [H|[->|H]].
-      - left. destruct (has_event (e_id p) conflicted); [apply union_keeps|]; exact H.
-      - left. rewrite Hoc. apply union_adds; [exact Fa|intro y; apply subgraph_walk_selfmap|].
-        eapply origin_complete; eassumption.
-      - right. exact H. }
-    apply G; [intros ? []|right; exact Ho].
+    intro Hp. unfold origin_part. split.
+    - intro H. pose proof (lookup_selfmap _ _ H) as Fx. split; [exact Fx|].
+      apply lookup_ids_find in H as [v [Hv Ev]]. apply in_map_iff in Hv as [z [<- Hz]].
+      apply filter_In in Hz as [Hz Rz]. apply reaches_conflicted_iff in Rz as [c [Hc Rc]].
+      destruct Hz as [<-|Hz].
+      + rewrite (Hp x Ev) in *. exists c. repeat split; [exact Hc|left; reflexivity|exact Rc].
+      + apply (full_auth_chain_spec authmap [p] z) in Hz. destruct Hz as [e [[<-|[]] R]].
+        assert (x = z).
+        { pose proof (reach_selfmap _ _ R) as Fz. unfold selfmap in Fz. congruence. }
+        subst z. exists c. repeat split; [exact Hc|right; exact R|exact Rc].
+    - intros [Fx [c [Hc [R1 R2]]]]. apply lookup_ids_has; [exact Fx|]. unfold ids_of. apply in_map.
+      apply filter_In. split.
+      + destruct R1 as [->|R1]; [left; reflexivity|right].
+        apply (full_auth_chain_spec authmap [p] x). exists p. split; [left; reflexivity|exact R1].
+      + apply reaches_conflicted_iff. exists c. split; assumption.
   Qed.
-End Complete.
+
+  Lemma conflicted_subgraph_selfmap s y : In y (conflicted_subgraph authmap conflicted s) -> selfmap y.
+  Proof.
+    unfold conflicted_subgraph.
+    apply (fold_left_inv _ (fun acc => In y acc -> selfmap y)); [intros []|].
+    intros acc p Hacc _. destruct (has_event (e_id p) conflicted); [|exact Hacc].
+    intro H. revert y H Hacc.
+    assert (G : forall y, In y (union_events acc (origin_part p)) -> In y acc \/ selfmap y).
+    { apply (union_events_P (fun y => In y acc \/ selfmap y)); [auto|]. intros y Hy. right. eapply lookup_selfmap. exact Hy. }
+    intros y H Hacc. destruct (G y H); auto.
+  Qed.
+
+  Lemma conflicted_subgraph_set_spec s x :
+    (forall o y, In o s -> find_event (e_id o) authmap = Some y -> y = o) ->
+    (In x (conflicted_subgraph authmap conflicted s) <->
+     selfmap x /\ exists o c, In o s /\ has_event (e_id o) conflicted = true /\
+                              has_event (e_id c) conflicted = true /\
+                              reach_refl authmap o x /\ reach_refl authmap x c).
+  Proof.
+    intro Hcons. unfold conflicted_subgraph. fold origin_part.
+    assert (G : forall l acc,
+              (forall y, In y acc -> selfmap y) -> (forall o, In o l -> In o s) ->
+              (In x (fold_left (fun acc p => if has_event (e_id p) conflicted then union_events acc (origin_part p) else acc) l acc)
+               <-> In x acc \/ (selfmap x /\ exists o c, In o l /\ has_event (e_id o) conflicted = true /\
+                                                          has_event (e_id c) conflicted = true /\
+                                                          reach_refl authmap o x /\ reach_refl authmap x c))).
+    { induction l as [|p r IH]; intros acc Fa Hl; cbn [fold_left].
+      - split; [auto|]. intros [H|[_ [o [c [[] _]]]]]. exact H.
+      - assert (Hps : forall y, find_event (e_id p) authmap = Some y -> y = p) by (intro y; apply Hcons, Hl; left; reflexivity).
+        destruct (has_event (e_id p) conflicted) eqn:Ep.
+        + rewrite IH; [|apply (union_events_P selfmap); [exact Fa|intro y; apply lookup_selfmap]|intros; apply Hl; right; assumption].
+          split.
+          * intros [H|[Fx [o [c [Ho R]]]]].
+            -- assert (H' : In x acc \/ In x (origin_part p)).
+               { exact (union_events_P (fun z => In z acc \/ In z (origin_part p)) acc (origin_part p)
+                                       (fun z Hz => or_introl Hz) (fun z Hz => or_intror Hz) x H). }
+               destruct H' as [H'|H']; [auto|]. right. apply (origin_part_spec p x Hps) in H' as [Fx [c [Hc [R1 R2]]]].
+               split; [exact Fx|]. exists p, c. repeat split; auto. left. reflexivity.
+            -- right. split; [exact Fx|]. exists o, c. destruct R as [R0 R]. repeat split; try tauto. right. exact Ho.
+          * intros [H|[Fx [o [c [[<-|Ho] [Hoc [Hc [R1 R2]]]]]]]].
+            -- left. apply union_keeps. exact H.
+            -- left. apply union_adds; [exact Fa|intro y; apply lookup_selfmap|].
+               apply (origin_part_spec p x Hps). split; [exact Fx|]. exists c. auto.
+            -- right. split; [exact Fx|]. exists o, c. auto.
+        + rewrite IH; [|exact Fa|intros; apply Hl; right; assumption]. split.
+          * intros [H|[Fx [o [c [Ho R]]]]]; [auto|]. right. split; [exact Fx|]. exists o, c. split; [right; exact Ho|exact R].
+          * intros [H|[Fx [o [c [[<-|Ho] [Hoc R]]]]]]; [auto|congruence|]. right. split; [exact Fx|]. exists o, c. auto. }
+    rewrite (G s []); [|intros ? []|auto]. split; [intros [[]|H]; exact H|auto].
+  Qed.
+End Self.
 
 (* the v2.1 part of calculateAuthDifferenceNew: the union over the state sets *)
 Definition complete_subgraph (authmap conflicted : list event) (sets : list (list event)) : list event :=
   fold_left (fun acc s => union_events acc (conflicted_subgraph authmap conflicted s)) sets [].
 
-Theorem conflicted_subgraph_spec authmap conflicted sets (rank : bytes -> nat) x :
-  (forall a b, auth_step authmap a b -> rank (e_id b) < rank (e_id a)) ->
+Theorem conflicted_subgraph_spec authmap conflicted sets x :
   (forall s o y, In s sets -> In o s -> find_event (e_id o) authmap = Some y -> y = o) ->
   (In x (complete_subgraph authmap conflicted sets) <-> spec_conflicted_subgraph authmap conflicted sets x).
 Proof.
-  intros Hac Hcons. unfold complete_subgraph.
-  assert (Self : forall s y, In y (conflicted_subgraph authmap conflicted s) -> selfmap authmap y).
-  { intros s y. unfold conflicted_subgraph.
-    apply (fold_left_inv _ (fun acc => In y acc -> selfmap authmap y)); [intros []|].
-    intros acc p Hacc _. destruct (has_event (e_id p) conflicted); [|exact Hacc].
-    intro H. revert y H Hacc.
-    assert (G : forall y, In y (union_events acc (subgraph_walk (S (length authmap)) authmap conflicted p [])) ->
-                          In y acc \/ selfmap authmap y).
-    { apply (union_events_P (fun y => In y acc \/ selfmap authmap y)); [auto|].
-      intros y Hy. right. eapply subgraph_walk_selfmap. exact Hy. }
-    intros y H Hacc. destruct (G y H); auto. }
-  split.
-  - apply (fold_left_inv _ (fun acc => In x acc -> spec_conflicted_subgraph authmap conflicted sets x)); [intros []|].
-    intros acc s Hacc Hs H.
-    assert (G : In x acc \/ In x (conflicted_subgraph authmap conflicted s)).
-    { revert x H Hacc. 
-      assert (G0 : forall x, In x (union_events acc (conflicted_subgraph authmap conflicted s)) ->
-                             In x acc \/ In x (conflicted_subgraph authmap conflicted s)).
-      { apply (union_events_P (fun x => In x acc \/ In x (conflicted_subgraph authmap conflicted s))); auto. }
-      intros x H _. apply G0. exact H. }
-    destruct G as [G|G]; [auto|]. eapply conflicted_subgraph_sound; [exact Hs| |exact G].
-    intros o y Ho. apply (Hcons s o y Hs Ho).
-  - intros [Fx [s [o [c [Hs [Ho [Hoc [Hc [R1 R2]]]]]]]]].
-    assert (Hin : In x (conflicted_subgraph authmap conflicted s)).
-    { eapply (conflicted_subgraph_complete_set authmap conflicted rank Hac s o x c); eassumption. }
-    assert (G : forall l acc, (forall y, In y acc -> selfmap authmap y) -> (In x acc \/ In s l) ->
-              In x (fold_left (fun acc s => union_events acc (conflicted_subgraph authmap conflicted s)) l acc)).
-    { induction l as [|s0 r IH]; intros acc Fa H; cbn [fold_left]; [destruct H as [H|[]]; exact H|].
-      apply IH.
-      - apply (union_events_P (selfmap authmap)); [exact Fa|apply Self].
-      - destruct H as [H|[->|H]]; [left; apply union_keeps; exact H| |right; exact H].
-        left. apply (union_adds authmap); [exact Fa|apply Self|exact Hin]. }
-    apply G; [intros ? []|right; exact Hs].
+  intros Hcons. unfold complete_subgraph, spec_conflicted_subgraph.
+  assert (G : forall l acc, (forall y, In y acc -> selfmap authmap y) -> (forall s, In s l -> In s sets) ->
+            (In x (fold_left (fun acc s => union_events acc (conflicted_subgraph authmap conflicted s)) l acc)
+             <-> In x acc \/ exists s, In s l /\ In x (conflicted_subgraph authmap conflicted s))).
+  { induction l as [|s0 r IH]; intros acc Fa Hl; cbn [fold_left].
+    - split; [auto|]. intros [H|[s [[] _]]]. exact H.
+    - rewrite IH; [|apply (union_events_P (selfmap authmap)); [exact Fa|apply conflicted_subgraph_selfmap]|intros; apply Hl; right; assumption].
+      split.
+      + intros [H|[s [Hs Hx]]]; [|right; exists s; split; [right; exact Hs|exact Hx]].
+        assert (H' : In x acc \/ In x (conflicted_subgraph authmap conflicted s0)).
+        { exact (union_events_P (fun z => In z acc \/ In z (conflicted_subgraph authmap conflicted s0)) acc _
+                                (fun z Hz => or_introl Hz) (fun z Hz => or_intror Hz) x H). }
+        destruct H' as [H'|H']; [auto|]. right. exists s0. split; [left; reflexivity|exact H'].
+      + intros [H|[s [[<-|Hs] Hx]]].
+        * left. apply union_keeps. exact H.
+        * left. apply (union_adds authmap); [exact Fa|apply conflicted_subgraph_selfmap|exact Hx].
+        * right. exists s. auto. }
+  rewrite (G sets []); [|intros ? []|auto]. split.
+  - intros [[]|[s [Hs Hx]]]. apply (conflicted_subgraph_set_spec authmap conflicted s x) in Hx as [Fx [o [c [Ho R]]]]; [|intros o y; apply Hcons; exact Hs].
+    split; [exact Fx|]. exists s, o, c. tauto.
+  - intros [Fx [s [o [c [Hs [Ho R]]]]]]. right. exists s. split; [exact Hs|].
+    apply (conflicted_subgraph_set_spec authmap conflicted s x); [intros o' y; apply Hcons; exact Hs|].
+    split; [exact Fx|]. exists o, c. tauto.
 Qed.
